@@ -43,6 +43,7 @@ def okGE : Expr → Bool
     name != "throw" && name != "println" && okGArgs args && oneNonAtom args
   | .matchE _ _ c arms (some d) => okGE c && okGArms arms && okGE d
   | .list _ _ xs => xs.all atomE
+  | .obj _ _ fs => fs.all (fun f => atomE f.2) && decide ((fs.map (·.1)).Nodup)
   | _ => false
 /-- The arms of a `match`: literal patterns, bodies in the fragment. -/
 def okGArms : List (List Expr × Expr) → Bool
@@ -59,6 +60,7 @@ end
 /-- A cell read: `l[i]`, possibly in parentheses (its value on the VM's stack carries the cell's origin). -/
 def isRead : Expr → Bool
   | .index .. => true
+  | .member .. => true
   | .grouped _ e => isRead e
   | _ => false
 
@@ -71,6 +73,7 @@ def depthGE : Expr → Nat
   | .call _ _ _ args _ => depthGArgs args + 1
   | .matchE _ _ c arms (some d) => max (depthGE c) (max (depthGArms arms) (depthGE d)) + 1
   | .index _ _ b i => max (depthGE b) (depthGE i) + 1
+  | .member _ _ b _ _ => depthGE b + 1
   | _ => 1
 def depthGArms : List (List Expr × Expr) → Nat
   | [] => 1
@@ -94,6 +97,8 @@ def varsGE : Expr → List String
   | .matchE _ _ c arms (some d) => varsGE c ++ (varsGArms arms ++ varsGE d)
   | .index _ _ b i => varsGE b ++ varsGE i
   | .list _ _ xs => xs.flatMap varsE
+  | .obj _ _ fs => fs.flatMap (fun f => varsE f.2)
+  | .member _ _ b _ _ => varsGE b
   | _ => []
 def varsGArms : List (List Expr × Expr) → List String
   | [] => []
@@ -116,6 +121,7 @@ def callsGE : Expr → List String
   | .call _ _ (.ident _ _ name _ _ _) args _ => name :: callsGArgs args
   | .matchE _ _ c arms (some d) => callsGE c ++ (callsGArms arms ++ callsGE d)
   | .index _ _ b i => callsGE b ++ callsGE i
+  | .member _ _ b _ _ => callsGE b
   | _ => []
 def callsGArms : List (List Expr × Expr) → List String
   | [] => []
@@ -133,6 +139,7 @@ closed under element reads `l[i]` and arithmetic over them. Finding V38 (a read 
 the cell on the VM's stack) is excluded: next to a cell read, the later operand calls no function. -/
 def okXE : Expr → Bool
   | .index _ _ b i => okXE b && okXE i && (!isRead b || (callsGE i).isEmpty)
+  | .member _ _ b _ .dot => okXE b
   | .infix sp ty op l r =>
     pureE (.infix sp ty op l r) || (!isLogical op && okXE l && okXE r && (!isRead l || (callsGE r).isEmpty))
   | .pre _ _ _ e => okXE e
@@ -168,6 +175,15 @@ def cgEls (mod : String) (ρ : String → Option String) (sp : Span) : List Expr
     ((cpE mod ρ x lm).1 ++ [(.copyPush (.int 2), sp), (.hostCall "__internal_list_push", sp)] ++
       (cgEls mod ρ sp xs (cpE mod ρ x lm).2).1,
      (cgEls mod ρ sp xs (cpE mod ρ x lm).2).2)
+
+/-- The fields of an object literal (pure initializers): each is assigned through its member of the
+object under construction. -/
+def cgFields (mod : String) (ρ : String → Option String) (sp : Span) : List (String × Expr) → LM → SCode × LM
+  | [], lm => ([], lm)
+  | f :: fs, lm =>
+    ([(.dup, sp), (.member f.1, sp)] ++ (cpE mod ρ f.2 lm).1 ++ [(.assign, sp)] ++
+      (cgFields mod ρ sp fs (cpE mod ρ f.2 lm).2).1,
+     (cgFields mod ρ sp fs (cpE mod ρ f.2 lm).2).2)
 
 mutual
 /-- **The code of an expression of the general fragment** (`ρ`: variables, `φ`: functions). -/
@@ -226,6 +242,10 @@ def cgE (mod : String) (ρ φ : String → Option String) : Expr → LM → SCod
     let cb := cgE mod ρ φ b lm
     let ci := cgE mod ρ φ i cb.2
     (cb.1 ++ ci.1 ++ [(.index, sp)], ci.2)
+  | .obj sp _ fs, lm =>
+    ([(.cloningPush (.obj (fs.map fun f => (f.1, .null))), sp)] ++ (cgFields mod ρ sp fs lm).1, (cgFields mod ρ sp fs lm).2)
+  | .member sp _ b name .dot, lm =>
+    ((cgE mod ρ φ b lm).1 ++ [(.member name, sp)], (cgE mod ρ φ b lm).2)
   | _, lm => ([], lm)
 /-- The arm bodies of a `match`: `case: Drop; body; Jump after`. -/
 def cgArms (mod : String) (ρ φ : String → Option String) (sp : Span) (after : String) :
@@ -336,6 +356,10 @@ def cgS (mod fn : String) (φ : String → Option String) :
     ([(.getVar m, asp)] ++ cr.1 ++ (arithI op).map (·, asp) ++ [(.setVar m, asp)], { env with lm := cr.2 })
   | _, .exprS _ (.assign asp op (.index isp ity b i) r), env =>
     let cl := cgE mod (ρS env.scopes) φ (.index isp ity b i) env.lm
+    let cr := cgE mod (ρS env.scopes) φ r cl.2
+    (cl.1 ++ opPre op asp ++ cr.1 ++ opPost op asp ++ [(.assign, asp)], { env with lm := cr.2 })
+  | _, .exprS _ (.assign asp op (.member msp mty b name .dot) r), env =>
+    let cl := cgE mod (ρS env.scopes) φ (.member msp mty b name .dot) env.lm
     let cr := cgE mod (ρS env.scopes) φ r cl.2
     (cl.1 ++ opPre op asp ++ cr.1 ++ opPost op asp ++ [(.assign, asp)], { env with lm := cr.2 })
   | loops, .exprS _ (.ifE isp _ c t (some eb)), env =>
@@ -505,6 +529,8 @@ def okFS : Bool → Bool → Bool → Stmt → Bool
   | _, _, _, .exprS _ (.assign _ (some op) (.ident _ _ _ false _ false) r) => !isLogical op && okXE r
   | _, _, _, .exprS _ (.assign _ op (.index isp ity b i) r) =>
     opOK op && okXE (.index isp ity b i) && okXE r && (callsGE r).isEmpty
+  | _, _, _, .exprS _ (.assign _ op (.member msp mty b name .dot) r) =>
+    opOK op && okXE (.member msp mty b name .dot) && okXE r && (callsGE r).isEmpty
   | fr, il, rt, .exprS _ (.ifE _ ty c t (some eb)) => ty.isNull && okGE c && okFBS fr il rt t && okFBS fr il rt eb
   | fr, il, rt, .exprS _ (.ifE _ ty c t none) => ty.isNull && okGE c && okFBS fr il rt t
   | fr, il, rt, .exprS _ (.tryE _ ty t _ c) => ty.isNull && okFBS fr false false t && okFBS fr il rt c
@@ -547,6 +573,7 @@ mutual
 def depthGS : Stmt → Nat
   | .letS _ _ _ _ _ e => depthGE e + 2
   | .exprS _ (.assign _ _ (.index _ _ b i) r) => max (depthGE b) (max (depthGE i) (depthGE r)) + 3
+  | .exprS _ (.assign _ _ (.member _ _ b _ _) r) => max (depthGE b) (depthGE r) + 3
   | .exprS _ (.assign _ _ _ r) => depthGE r + 2
   | .exprS _ (.ifE _ _ c t (some eb)) => max (depthGE c) (max (depthGBS t) (depthGBS eb)) + 2
   | .exprS _ (.ifE _ _ c t none) => max (depthGE c) (depthGBS t) + 2
@@ -588,6 +615,8 @@ def wsGS (mod fn : String) (φ : String → Option String) : List (String × Str
     (ρS env.scopes name).isSome && wsGE env.scopes φ r
   | _, .exprS _ (.assign _ _ (.index isp ity b i) r), env =>
     wsGE env.scopes φ (.index isp ity b i) && wsGE env.scopes φ r
+  | _, .exprS _ (.assign _ _ (.member msp mty b name mop) r), env =>
+    wsGE env.scopes φ (.member msp mty b name mop) && wsGE env.scopes φ r
   | loops, .exprS _ (.ifE _ _ c t (some eb)), env =>
     wsGE env.scopes φ c &&
       wsGBS mod fn φ loops t { env with lm := (freshLabel mod (freshLabel mod
@@ -667,6 +696,7 @@ def identsGS : Stmt → List String
   | .letS _ name _ _ _ e => name :: namesGE e
   | .exprS _ (.assign _ _ (.ident _ _ name _ _ _) r) => name :: namesGE r
   | .exprS _ (.assign _ _ (.index isp ity b i) r) => namesGE (.index isp ity b i) ++ namesGE r
+  | .exprS _ (.assign _ _ (.member msp mty b name mop) r) => namesGE (.member msp mty b name mop) ++ namesGE r
   | .exprS _ (.ifE _ _ c t (some eb)) => namesGE c ++ (identsGBS t ++ identsGBS eb)
   | .exprS _ (.ifE _ _ c t none) => namesGE c ++ identsGBS t
   | .exprS _ (.call _ _ (.ident _ _ name _ _ _) args _) => name :: namesGArgs args
@@ -718,6 +748,36 @@ theorem identsGS_idxAssign (sp asp op isp ity b i r) :
 theorem depthGS_idxAssign (sp asp op isp ity b i r) :
     Frag.depthGS (.exprS sp (.assign asp op (.index isp ity b i) r)) =
       max (Frag.depthGE b) (max (Frag.depthGE i) (Frag.depthGE r)) + 3 := by
+  simp only [Frag.depthGS]
+
+/-! ## Assignment through a member: unfolding lemmas -/
+
+theorem okFS_memAssign (fr il rt sp asp op msp mty b name r) :
+    Frag.okFS fr il rt (.exprS sp (.assign asp op (.member msp mty b name .dot) r)) =
+      (opOK op && Frag.okXE (.member msp mty b name .dot) && Frag.okXE r && (Frag.callsGE r).isEmpty) := by
+  cases op <;> simp only [Frag.okFS]
+
+theorem cgS_memAssign (mod fn φ loops sp asp op msp mty b name r) (env : CEnv) :
+    cgS mod fn φ loops (.exprS sp (.assign asp op (.member msp mty b name .dot) r)) env =
+      ((cgE mod (ρS env.scopes) φ (.member msp mty b name .dot) env.lm).1 ++ opPre op asp ++
+        (cgE mod (ρS env.scopes) φ r (cgE mod (ρS env.scopes) φ (.member msp mty b name .dot) env.lm).2).1 ++ opPost op asp ++
+        [(.assign, asp)],
+       { env with lm := (cgE mod (ρS env.scopes) φ r (cgE mod (ρS env.scopes) φ (.member msp mty b name .dot) env.lm).2).2 }) := by
+  cases op <;> simp only [cgS]
+
+theorem wsGS_memAssign (mod fn φ loops sp asp op msp mty b name mop r) (env : CEnv) :
+    Frag.wsGS mod fn φ loops (.exprS sp (.assign asp op (.member msp mty b name mop) r)) env =
+      (Frag.wsGE env.scopes φ (.member msp mty b name mop) && Frag.wsGE env.scopes φ r) := by
+  simp only [Frag.wsGS]
+
+theorem identsGS_memAssign (sp asp op msp mty b name mop r) :
+    Frag.identsGS (.exprS sp (.assign asp op (.member msp mty b name mop) r)) =
+      Frag.namesGE (.member msp mty b name mop) ++ Frag.namesGE r := by
+  simp only [Frag.identsGS]
+
+theorem depthGS_memAssign (sp asp op msp mty b name mop r) :
+    Frag.depthGS (.exprS sp (.assign asp op (.member msp mty b name mop) r)) =
+      max (Frag.depthGE b) (Frag.depthGE r) + 3 := by
   simp only [Frag.depthGS]
 
 end HmsProofs.Sim
